@@ -11,6 +11,15 @@
 //! bytes the server may read and what happens at the scripted instant (open / garbage / EOF).
 //! All futures are polled by hand, so the schedule decides exactly when a call future is polled and
 //! virtual time moves only in `advance` steps.  Every step is recorded with *observed* values.
+//!
+//! Two polling disciplines (per run, field `exec` of the schedule):
+//! * hand mode: a `poll` step and the sweeps of an `advance` step poll the call future
+//!   unconditionally (what is observable at that instant, wake-ups or not);
+//! * executor mode: like a wake-driven executor.  Every poll of a call future gets a FRESH waker;
+//!   a future is polled only if it was never polled or its most recent waker has fired (plus, at
+//!   most once per call and seeded, a poll under a new waker without a wake-up: the future moved
+//!   to another task).  A call whose current waker is not woken at its deadline is therefore
+//!   observed as still pending when the schedule says it must resolve.
 
 use std::{
     cell::{Cell, RefCell},
@@ -424,6 +433,7 @@ enum Fire {
     Garbage,
     Eof,
     DropClient,
+    Trickle,
 }
 
 struct Call {
@@ -435,6 +445,8 @@ struct Call {
     fire: Fire,
     fire_at_ms: u64,
     fired: bool,
+    npolls: u32,     // polls of the call future so far
+    migrated: bool,  // executor mode: already polled once without a wake-up
 }
 
 const GARBAGE: &[u8] = b"GET / HTTP/1.1\r\nHost: localhost\r\nUser-Agent: not-tls\r\n\r\n";
@@ -452,6 +464,7 @@ struct Run<'a> {
     t_ticks: u64,
     tick_ms: u64,
     acc: String,
+    exec: bool,
     stats: BTreeMap<String, u64>,
 }
 
@@ -487,8 +500,13 @@ impl<'a> Run<'a> {
     /// (the client answers in between).  `None` = still pending.
     fn poll_call(&mut self, i: usize) -> Result<Option<Outcome>, String> {
         for _ in 0..64 {
+            let exec = self.exec;
             let c = &mut self.calls[i];
+            if exec {
+                c.flag = new_flag(false); // a new waker identity for every poll
+            }
             take_flag(&c.flag);
+            c.npolls += 1;
             let waker = Waker::from(c.flag.clone());
             let mut cx = Context::from_waker(&waker);
             let fut = c.fut.as_mut().unwrap();
@@ -503,6 +521,11 @@ impl<'a> Run<'a> {
             }
         }
         Ok(None)
+    }
+
+    /// executor mode: would a wake-driven executor poll call `i` now?
+    fn runnable(&self, i: usize) -> bool {
+        !self.exec || self.calls[i].npolls == 0 || self.calls[i].flag.0.load(Ordering::SeqCst)
     }
 
     fn el_ms(&self, i: usize) -> u64 {
@@ -554,7 +577,7 @@ impl<'a> Run<'a> {
             "complete" => ["hold1", "hold2"][self.rng.below(2)],
             "fail" if th == 0 => ["garbage0", "eof0", "drop0", "garbage1", "eof1"][self.rng.below(5)],
             "fail" => ["garbage0", "eof0", "drop0", "garbage1", "eof1"][self.rng.below(5)],
-            _ => ["silent", "mute", "hello", "halfhello", "hello+3"][self.rng.below(5)],
+            _ => ["silent", "mute", "hello", "halfhello", "hello+3", "trickle", "trickle"][self.rng.below(7)],
         };
         let written = Rc::new(Cell::new(0u64));
         let cio = CountIo {
@@ -579,6 +602,7 @@ impl<'a> Run<'a> {
             "garbage0" | "garbage1" => Fire::Garbage,
             "eof0" | "eof1" => Fire::Eof,
             "drop0" => Fire::DropClient,
+            "trickle" => Fire::Trickle, // half a hello now, the rest one tick later, then silence
             _ => Fire::Never,
         };
         self.calls.push(Call {
@@ -588,8 +612,10 @@ impl<'a> Run<'a> {
             gate: gate.clone(),
             client,
             fire,
-            fire_at_ms: th * self.tick_ms,
+            fire_at_ms: if fire == Fire::Trickle { self.tick_ms } else { th * self.tick_ms },
             fired: false,
+            npolls: 0,
+            migrated: false,
         });
         self.settle_clients(); // the TLS client writes its first flight
         let n1 = self.calls.last().unwrap().client.written.get();
@@ -598,12 +624,12 @@ impl<'a> Run<'a> {
             g.quota = match flavour {
                 "open" | "drop0" => u64::MAX,
                 "hold2" | "garbage1" | "eof1" | "hello" => n1,
-                "halfhello" => n1 / 2,
+                "halfhello" | "trickle" => n1 / 2,
                 "hello+3" => n1 + 3,
                 _ => 0,
             };
         }
-        if th == 0 {
+        if self.calls.last().unwrap().fire_at_ms == 0 {
             let i = self.calls.len() - 1;
             self.fire(i);
         }
@@ -629,6 +655,7 @@ impl<'a> Run<'a> {
                 g.inject = v;
             }
             Fire::Eof => g.eof = true,
+            Fire::Trickle => g.quota = c.client.written.get().max(g.quota),
             Fire::DropClient => {
                 c.client.raw = None; // the peer goes away: the duplex reports EOF
                 c.client.fut = None;
@@ -654,6 +681,13 @@ impl<'a> Run<'a> {
             Outcome::Service => ("service", String::new(), None),
         };
         bump(&mut self.stats, &format!("res:{}:{res}", self.acc), 1);
+        if self.exec {
+            bump(&mut self.stats, &format!("exec:res:{}:{res}", self.acc), 1);
+            if res == "timeout" && c.npolls >= 3 {
+                // timed out after having been polled again under another waker in between
+                bump(&mut self.stats, &format!("exec:timeout_after_repoll:{}", self.acc), 1);
+            }
+        }
         out.push(json!({"ev": "poll", "c": i + 1, "res": res, "el_ms": el_ms, "err": err,
                         "woken": self.wakers.woken_since(before), "unres": self.calls.len()}));
         if let Some(mut server) = server {
@@ -734,9 +768,15 @@ impl<'a> Run<'a> {
         }
         let i = c - 1;
         let el_ms = self.el_ms(i);
+        if !self.runnable(i) {
+            // executor mode: its current waker has not fired, so nobody polls it
+            out.push(json!({"ev": "poll", "c": c, "res": "pending", "polled": false, "el_ms": el_ms, "err": "",
+                            "woken": [], "unres": self.calls.len()}));
+            return;
+        }
         match self.poll_call(i) {
             Ok(Some(o)) => self.finish_call(i, o, el_ms, out, &before),
-            Ok(None) => out.push(json!({"ev": "poll", "c": c, "res": "pending", "el_ms": el_ms, "err": "",
+            Ok(None) => out.push(json!({"ev": "poll", "c": c, "res": "pending", "polled": true, "el_ms": el_ms, "err": "",
                                         "woken": self.wakers.woken_since(&before), "unres": self.calls.len()})),
             Err(m) => {
                 self.remove_call(i);
@@ -756,9 +796,20 @@ impl<'a> Run<'a> {
     }
 
     /// polls every unresolved call; those that resolve although the schedule let time pass are `early`
-    fn sweep(&mut self, early: &mut Vec<Value>) {
+    fn sweep(&mut self, early: &mut Vec<Value>, may_migrate: bool) {
         let mut i = 0;
         while i < self.calls.len() {
+            if !self.runnable(i) {
+                // executor mode.  At most once per call: the future moves to another task, which
+                // polls it under its own waker although nothing woke it.
+                if may_migrate && !self.calls[i].migrated && self.rng.below(4) == 0 {
+                    self.calls[i].migrated = true;
+                    bump(&mut self.stats, "exec:migrations", 1);
+                } else {
+                    i += 1;
+                    continue;
+                }
+            }
             let el_ms = self.el_ms(i);
             match self.poll_call(i) {
                 Ok(None) => i += 1,
@@ -786,9 +837,9 @@ impl<'a> Run<'a> {
         let before = self.wakers.counts();
         let start = tokio::time::Instant::now();
         let mut early = vec![];
-        self.sweep(&mut early);
+        self.sweep(&mut early, true);
         tokio::time::advance(Duration::from_millis(self.tick_ms - 1)).await;
-        self.sweep(&mut early);
+        self.sweep(&mut early, false);
         tokio::time::advance(Duration::from_millis(1)).await;
         let now = tokio::time::Instant::now();
         for i in 0..self.calls.len() {
@@ -843,6 +894,7 @@ fn run_one(mat: &TlsMaterial, run: usize, sched: &Value) -> RunOut {
     let tick_ms = geti(sched, "tick_ms") as u64;
     let seed = geti(sched, "seed") as u64;
     let random = sched.get("random").and_then(|x| x.as_u64()).unwrap_or(0);
+    let exec = sched.get("exec").and_then(|x| x.as_bool()).unwrap_or(false);
     let maxcalls = sched.get("maxcalls").and_then(|x| x.as_u64()).unwrap_or(5) as usize;
 
     // thread-local counter: capacity = MAX_CONN at first use on this (fresh) thread
@@ -865,10 +917,12 @@ fn run_one(mat: &TlsMaterial, run: usize, sched: &Value) -> RunOut {
             t_ticks,
             tick_ms,
             acc: acc.clone(),
+            exec,
             stats: BTreeMap::new(),
         };
         let mut recs = vec![json!({"ev": "reset", "run": run, "acc": acc, "limit": limit, "T": t_ticks,
-                                   "tick_ms": tick_ms, "timeout_ms": t_ticks * tick_ms, "seed": seed})];
+                                   "tick_ms": tick_ms, "timeout_ms": t_ticks * tick_ms, "seed": seed,
+                                   "mode": if exec { "exec" } else { "hand" }})];
         let mut mismatch = None;
         let mut steps = 0usize;
         if random == 0 {
@@ -1021,6 +1075,9 @@ fn main() {
             mismatches.push(m);
         }
         bump(&mut stats, &format!("runs:{}", gets(job, "acc")), 1);
+        if job.get("exec").and_then(|x| x.as_bool()).unwrap_or(false) {
+            bump(&mut stats, &format!("exec:runs:{}", gets(job, "acc")), 1);
+        }
         for (s, n) in out.stats {
             bump(&mut stats, &s, n);
         }
